@@ -48,6 +48,17 @@ def make_case(rng):
         case["reqs"][-1]["conn"] = ["close"]
     # a client that is gone before the response is written (it closed right after sending)
     case["client_gone"] = rng.random() < 0.08
+    # the iterable's close() fails after the whole body went out: the request was handled all the same
+    for p in case["progs"]:
+        if p.get("mode") in ("gen", "write+iter") and p.get("has_close") and not p.get("fail") and not p.get("fail_exc_info") \
+                and rng.random() < 0.08:
+            p["close_raises"] = True
+    # access logging configured through a logging dictionary (no handler on 'gunicorn.access' itself, records propagate)
+    case["log_via_root"] = False        # (logging configuration is process-wide: set per shard, see shard())
+    # a chunked upload the application does not read, with a trailer section the parser refuses when it skips the body afterwards
+    if case["reqs"][-1]["method"] == "POST-chunked" and rng.random() < 0.3:
+        case["bad_trailer"] = rng.choice(["no colon here", "X-T : v", "X-T: a\x00b"])
+        case["progs"][-1]["read_input"] = "none"
     return case
 
 
@@ -104,19 +115,27 @@ def render_request(case, i):
     elif m == "POST-chunked":
         lines.append("Transfer-Encoding: chunked")
         framed = (b"%x\r\n" % len(body) + body + b"\r\n" if body else b"") + b"0\r\n\r\n"
+        if case.get("bad_trailer") and i == len(case["reqs"]) - 1:
+            framed = framed[:-2] + case["bad_trailer"].encode("latin-1") + b"\r\n\r\n"
     for c in r["conn"] or []:
         lines.append("Connection: " + c)
     return (first + "\r\n" + "".join(l + "\r\n" for l in lines) + "\r\n").encode("latin-1") + framed
 
 
 def run_case(run, e2, harnesses, case, scratch):
-    key = (case["kind"], case["cfg"], case["format"])
+    key = (case["kind"], case["cfg"], case["format"], bool(case.get("log_via_root")))
     h = harnesses.get(key)
     if h is None:
         cfgset = dict(c02.CFG_VARIANTS[case["cfg"]])
         if FORMATS[case["format"]]:
             cfgset["access_log_format"] = FORMATS[case["format"]]
-        h = harnesses[key] = e2.Harness(case["kind"], cfgset, scratch=scratch)
+        h = harnesses[key] = e2.Harness(case["kind"], cfgset, scratch=scratch, capture_root=bool(case.get("log_via_root")))
+    if case.get("log_via_root"):
+        run.count("logging_dictionary_cases")
+    if any(p.get("close_raises") for p in case["progs"]):
+        run.count("close_raises_cases")
+    if case.get("bad_trailer"):
+        run.count("unread_upload_with_refused_trailer_cases")
     script = b"".join(render_request(case, i) for i in range(len(case["reqs"])))
     router = c02.Router(e2, case["progs"], scratch)
     h.capture.take()
@@ -142,6 +161,9 @@ def run_case(run, e2, harnesses, case, scratch):
         # `r` atom and `e`/`U` atoms may also contain id-<rid>: count records (lines), not substrings
         if records is not None:
             k = sum(1 for ln in records if ("ID=%s " % rid in ln) or (case["format"] == "default" and "ua-%s." % rid in ln))
+        if completed and case["progs"][i].get("close_raises") and case.get("client_gone"):
+            run.count("info_failed_app_requests")      # cleanup failed and nobody was there to receive: two failures, not judged
+            continue
         if completed:
             run.count("completed_requests")
             if k != 1:
@@ -288,6 +310,7 @@ def shard(sh):
             if run.enough():
                 break
             case = make_case(rng)
+            case["log_via_root"] = sh.get("sub", 0) % 8 == 3
             nt = any(x != "none" for x in case["hostile"]) or any(p.get("chunks") for p in case["progs"])
             run.case(common.sha12(case), nontrivial=nt)
             for x in case["hostile"]:
@@ -310,7 +333,8 @@ def main(tier, seed):
     run = Run(PROP, tier, seed, "exploration", RULE)
     run.require("completed_requests", "rejected_requests", "B_compared", "B_nonzero_matches",
                 "hostile/pct-lf-path", "hostile/auth-lf", "hostile/rejected", "hostile/auth-8bit", "B_compared_short_file_body",
-                "client_gone_before_response_cases")
+                "client_gone_before_response_cases", "logging_dictionary_cases", "close_raises_cases",
+                "unread_upload_with_refused_trailer_cases")
     q = tier == "quick"
     shards = [{"n": 1200 if q else 15000, "sub": i, "seed": seed, "tier": tier} for i in range(32 if q else 64)]
     classes = ["sync", "gthread", "gevent", "eventlet"]
